@@ -18,6 +18,8 @@
 //!                            `advance_counter` (if it stores nothing it completes, then the power loss);
 //!                            then restart as `boot <init>`. out: `<counter> <stored|-> died|done <next>`
 //!   `jump <d>`               `invalidate_counter(d)`. out: `y|-`
+//!   `checkinfail`            `send_check_in` whose store FAILS (error, no power loss); outside C12's
+//!                            quantifier (oracle off). out: `<counter> - ok|err:<Code>`
 use core::net::{IpAddr, Ipv6Addr};
 use core::num::NonZeroU8;
 use core::pin::pin;
@@ -245,6 +247,19 @@ pub(super) fn run_c(out: &mut Out, case: &Case, words: &[&str]) {
                     if how == "ok" && all.len() == 1 {
                         n_use += 1;
                         format!("{} {}", all[0], stored)
+                    } else {
+                        format!("wire:{}:{} {} {}", all.len(), all.join(","), stored, how)
+                    }
+                }
+                // the store of `advance_counter` FAILS (no power loss): outside C12's quantifier, the
+                // driver switches its oracle off; only serves the documented observation replay
+                "checkinfail" => {
+                    kvc.borrow_mut().fail_store = true;
+                    let (all, how) = do_checkin(&mut runner, &net, &matter, &icd, &subs, &sock, &kvc, &crypto, peer);
+                    kvc.borrow_mut().fail_store = false;
+                    let stored = drain_icd_stores(&kvc);
+                    if all.len() == 1 {
+                        format!("{} {} {}", all[0], stored, how)
                     } else {
                         format!("wire:{}:{} {} {}", all.len(), all.join(","), stored, how)
                     }
